@@ -394,14 +394,149 @@ def cases():
     return st.fixed_dictionaries({"kind": st.sampled_from(["udp", "tcp"]), "steps": steps})
 
 
+# ---- the same over real loopback sockets with the real registry clients (real time, generous margins) ----------------
+REAL_PRUNE = 0.6
+
+
+def run_real(case):
+    import logging
+    import threading
+    import time
+    from rpyc.utils import registry
+    quiet = logging.getLogger("verif-c18-real")
+    quiet.disabled = True
+    kind = case["kind"]
+    problems = []
+    if kind == "udp":
+        srv = registry.UDPRegistryServer(host="127.0.0.1", port=0, pruning_timeout=REAL_PRUNE, logger=quiet)
+        cli = registry.UDPRegistryClient(ip="127.0.0.1", port=srv.port, timeout=2, bcast=False, logger=quiet)
+    else:
+        srv = registry.TCPRegistryServer(host="127.0.0.1", port=0, pruning_timeout=REAL_PRUNE, logger=quiet)
+        cli = registry.TCPRegistryClient(ip="127.0.0.1", port=srv.port, timeout=2, logger=quiet)
+    t = threading.Thread(target=srv.start)
+    t.daemon = True
+    t.start()
+    time.sleep(0.05)
+    model = {}
+    try:
+        for stp in case["steps"]:
+            op = stp[0]
+            if op == "reg":
+                port, names = PORTS[stp[1] % 3], [ALIASES[a % 4] for a in stp[2]] or ["foo"]
+                ok = cli.register(tuple(names), port, interface="127.0.0.1")
+                if not ok:
+                    problems.append(("real-reply", "register not acknowledged", [port, names]))
+                    break
+                now = time.time()
+                for n in names:
+                    model.setdefault(n.upper(), {})[port] = now
+            elif op == "unreg":
+                port = PORTS[stp[1] % 3]
+                cli.unregister(port)
+                time.sleep(0.05)
+                for n in list(model):
+                    model[n].pop(port, None)
+            elif op == "tick":
+                time.sleep(stp[1])
+            elif op == "bad":
+                import socket as _s
+                data = bad_request(stp[1], stp[2]) if stp[1] not in TCP_ONLY else b""
+                try:
+                    if kind == "udp":
+                        s = _s.socket(_s.AF_INET, _s.SOCK_DGRAM)
+                        s.sendto(data[:1400], ("127.0.0.1", srv.port))
+                        s.close()
+                    else:
+                        s = _s.create_connection(("127.0.0.1", srv.port), timeout=2)
+                        if data:
+                            s.sendall(data[:1400])
+                        s.close()
+                except OSError:
+                    pass
+                time.sleep(0.02)
+            elif op == "query":
+                name = ALIASES[stp[1] % 4]
+                name = [name.lower(), name.upper(), name.capitalize()][stp[2] % 3]
+                t0 = time.time()
+                got = cli.discover(name)
+                t1 = time.time()
+                grp = model.get(name.upper(), {})
+                sure_live = [p for p, ts in grp.items() if t1 - ts < REAL_PRUNE - 0.25]
+                sure_dead = [p for p, ts in grp.items() if t0 - ts > REAL_PRUNE + 0.25]
+                ports = [x[1] for x in got] if isinstance(got, tuple) else None
+                if ports is None or any(x[0] != "127.0.0.1" for x in got):
+                    problems.append(("real-query", "reply is not a tuple of (host, port)", repr(got)[:80]))
+                    break
+                if any(p not in ports for p in sure_live) or any(p in ports for p in sure_dead) or any(p not in grp for p in ports):
+                    problems.append(("real-query", "reply lists other servers than the live registrations",
+                                     {"got": ports, "live": sure_live, "dead": sure_dead, "known": sorted(grp)}))
+                    break
+                for p in sure_dead:
+                    grp.pop(p, None)
+                order = [p for p in ports if p in sure_live]
+                if any(grp[order[i]] > grp[order[i + 1]] + 0.02 for i in range(len(order) - 1)):
+                    problems.append(("real-query", "not oldest refresh first", {"got": ports}))
+                    break
+            if not t.is_alive():
+                problems.append(("real-loop-died", "registry thread ended after %s" % (op if op != "bad" else "malformed request (%s)" % stp[1]), None))
+                break
+    finally:
+        try:
+            srv.close()
+        except Exception:
+            pass
+        t.join(5)
+    return problems
+
+
+def check_real(case, rec):
+    problems = run_real(case)
+    if problems:
+        again = run_real(case)          # real time: confirm in isolation
+        if not again:
+            rec.count("inconclusive: not reproduced")
+            problems = []
+        else:
+            problems = again
+    steps = case["steps"]
+    rec.case(case, any(s[0] == "bad" for s in steps) and sum(1 for s in steps if s[0] == "query") >= 1,
+             ["real-transport:" + case["kind"]] + ["real-bad:" + s[1] for s in steps if s[0] == "bad"][:4])
+    return [Failure(cl, key, case, det) for cl, key, det in problems[:2]]
+
+
+def real_cases():
+    small = vals.immutables(big=False, surrogates=False, max_leaves=3)
+    bad = st.one_of(st.tuples(st.just("bad"), st.sampled_from(["wrong-magic", "unknown-command", "private-command", "wrong-argc", "no-args",
+                                                                "args-not-iterable", "aliases-not-text", "aliases-not-iterable", "truncated",
+                                                                "close-at-once", "half"]), st.none()),
+                    st.tuples(st.just("bad"), st.just("command-not-text"), st.sampled_from([["int", "5"], ["none"], ["bytes", "5155"]])),
+                    st.tuples(st.just("bad"), st.just("value"), small),
+                    st.tuples(st.just("bad"), st.just("bytes"), st.binary(max_size=16).map(lambda b: b.hex()))).map(list)
+    reg = st.tuples(st.just("reg"), st.integers(0, 2), st.lists(st.integers(0, 3), min_size=1, max_size=2)).map(list)
+    step = st.one_of(reg, reg, st.tuples(st.just("unreg"), st.integers(0, 2)).map(list),
+                     st.tuples(st.just("query"), st.integers(0, 3), st.integers(0, 2)).map(list),
+                     st.tuples(st.just("tick"), st.sampled_from([0.05, 1.0])).map(list), bad)
+    core = st.tuples(st.integers(0, 3), bad).map(lambda t: [["reg", 0, [t[0]]], ["tick", 0.05], ["reg", 1, [t[0]]], t[1], ["query", t[0], 0],
+                                                            ["reg", 0, [t[0]]], ["query", t[0], 1], ["unreg", 1], ["query", t[0], 2]])
+    return st.fixed_dictionaries({"part": st.just("real"), "kind": st.sampled_from(["udp", "tcp"]),
+                                  "steps": st.one_of(core, st.lists(step, min_size=2, max_size=10))})
+
+
 def plan(tier, scale):
     n, sh = (250, 10) if tier == "quick" else (8000, 14)
-    return [{"part": "histories", "n": int(n * scale)} for _ in range(sh)]
+    out = [{"part": "histories", "n": int(n * scale)} for _ in range(sh)]
+    out += [{"part": "real", "n": int((6 if tier == "quick" else 60) * scale) or 1} for _ in range(3 if tier == "quick" else 6)]
+    return out
 
 
 def run_shard(desc, seed, rec, tier):
-    drive(rec, cases(), lambda c: check(c, rec), desc["n"], seed)
+    if desc["part"] == "real":
+        drive(rec, real_cases(), lambda c: check_real(c, rec), desc["n"], seed, shrink_budget=10)
+    else:
+        drive(rec, cases(), lambda c: check(c, rec), desc["n"], seed)
 
 
 def replay(case, rec):
+    if case.get("part") == "real":
+        return check_real(case, rec)
     return check(case, rec)
